@@ -1479,6 +1479,7 @@ func runC05(ctx *Ctx) {
 	c05d05bFractions(ctx, rnd)
 	c05d05bFarInfinity(ctx, rnd, &scope)
 	c05d05bKnownLengths(ctx, rnd, &scope)
+	c05d05bOnePrecision(ctx, &scope)
 
 	// ---------- (c) prefixes
 	c05Prefixes(ctx, &scope)
